@@ -481,13 +481,14 @@ func (s *Server) attachClient(cl *Client, listener string) error {
 	if sessionPresent {
 		err = cl.ResendInflightMessages(true)
 		if err != nil {
-			return fmt.Errorf("resend inflight: %w", err)
+			err = fmt.Errorf("resend inflight: %w", err) // the connection ends; will and session handling below still apply
 		}
 	}
 
-	s.hooks.OnSessionEstablished(cl, pk)
-
-	err = cl.Read(s.receivePacket)
+	if err == nil {
+		s.hooks.OnSessionEstablished(cl, pk)
+		err = cl.Read(s.receivePacket)
+	}
 	verifPoint("attach.read_returned", cl.ID)
 	if err != nil {
 		s.sendLWT(cl)
